@@ -410,7 +410,9 @@ func baseToNumber(L *LState) int {
 		L.Push(lv)
 	case LString:
 		str := strings.Trim(string(lv), " \n\t\v\f\r")
-		if strings.Index(str, ".") > -1 {
+		// a fraction is read only in base 10 (the default): with any other explicit base the text must
+		// consist of digits of that base
+		if base == 10 && strings.Index(str, ".") > -1 {
 			if v, err := strconv.ParseFloat(str, LNumberBit); err != nil {
 				L.Push(LNil)
 			} else {
